@@ -41,7 +41,8 @@ Definition new_chan (cap : nat) : chan :=
 Inductive kind :=
 | KCall (w : option handle)                              (* PendingMethodCall(Option<oneshot>) *)
 | KPendSub (unsub : id) (w : handle) (um : bytes)        (* PendingSubscription *)
-| KSub (unsub : id) (ch : handle) (um : bytes).          (* Subscription (its sink is channel ch) *)
+| KSub (unsub : id) (ch : handle) (um : bytes)           (* Subscription (its sink is channel ch) *)
+| KUnsubP (sub : id).                                    (* PendingUnsubscribe(subscribe request id) *)
 
 Record mgr := {
   requests : list (id * kind);
@@ -205,11 +206,11 @@ Record st := {
   id_str : bool;               (* IdKind::String *)
   queue : list f2b;            (* front-to-back mpsc *)
   qcap : nat;
-  waiting : list f2b;          (* senders blocked on a full queue (FIFO, as tokio's semaphore) *)
+  waiting : list (f2b * option handle);   (* senders blocked on a full queue (FIFO, as tokio's semaphore); an unsubscribe() future is tagged with its waiter *)
   gone : list handle;          (* callers that gave up: their oneshot receivers are dropped *)
   gated : bool;                (* transport writes block until released *)
   busy : bool;                 (* the send task is inside a transport write *)
-  unsubw : list (handle * handle);   (* pending Subscription::unsubscribe futures: (waiter, channel) *)
+  unsubw : list (handle * handle * bool);   (* pending Subscription::unsubscribe futures: (waiter, channel, its message has entered the queue) *)
   subkind : list (handle * (subid + bytes));   (* what a front-end Subscription value refers to *)
   bufcap : nat;                (* max_buffer_capacity_per_subscription *)
   dead : bool;
@@ -234,7 +235,7 @@ Definition upd_next (s : st) (n : N) : st :=
   {| m := m s; chans := chans s; next_id := n; id_str := id_str s; queue := queue s; qcap := qcap s;
      waiting := waiting s; gone := gone s; gated := gated s; busy := busy s; unsubw := unsubw s;
      subkind := subkind s; bufcap := bufcap s; dead := dead s; dying := dying s; sendfail := sendfail s; unacked := unacked s |}.
-Definition upd_queue (s : st) (q w : list f2b) : st :=
+Definition upd_queue (s : st) (q : list f2b) (w : list (f2b * option handle)) : st :=
   {| m := m s; chans := chans s; next_id := next_id s; id_str := id_str s; queue := q; qcap := qcap s;
      waiting := w; gone := gone s; gated := gated s; busy := busy s; unsubw := unsubw s;
      subkind := subkind s; bufcap := bufcap s; dead := dead s; dying := dying s; sendfail := sendfail s; unacked := unacked s |}.
@@ -246,7 +247,7 @@ Definition upd_busy (s : st) (b : bool) : st :=
   {| m := m s; chans := chans s; next_id := next_id s; id_str := id_str s; queue := queue s; qcap := qcap s;
      waiting := waiting s; gone := gone s; gated := gated s; busy := b; unsubw := unsubw s;
      subkind := subkind s; bufcap := bufcap s; dead := dead s; dying := dying s; sendfail := sendfail s; unacked := unacked s |}.
-Definition upd_unsubw (s : st) (u : list (handle * handle)) : st :=
+Definition upd_unsubw (s : st) (u : list (handle * handle * bool)) : st :=
   {| m := m s; chans := chans s; next_id := next_id s; id_str := id_str s; queue := queue s; qcap := qcap s;
      waiting := waiting s; gone := gone s; gated := gated s; busy := busy s; unsubw := u;
      subkind := subkind s; bufcap := bufcap s; dead := dead s; dying := dying s; sendfail := sendfail s; unacked := unacked s |}.
@@ -300,10 +301,17 @@ Definition id_as_number (i : id) : option N :=
   end.
 
 (* ---------- enqueueing ---------- *)
-Definition enqueue (s : st) (msg : f2b) : st :=
+Definition mark_admitted (w : handle) (u : list (handle * handle * bool)) : list (handle * handle * bool) :=
+  map (fun x => match x with (h, c, b) => if N.eqb h w then (h, c, true) else (h, c, b) end) u.
+
+Definition enqueue_tagged (s : st) (msg : f2b) (tag : option handle) : st :=
   if Nat.ltb (length (queue s)) (qcap s) && (match waiting s with [] => true | _ => false end)
-  then upd_queue s (queue s ++ [msg]) (waiting s)
-  else upd_queue s (queue s) (waiting s ++ [msg]).
+  then
+    let s1 := upd_queue s (queue s ++ [msg]) (waiting s) in
+    match tag with Some w => upd_unsubw s1 (mark_admitted w (unsubw s1)) | None => s1 end
+  else upd_queue s (queue s) (waiting s ++ [(msg, tag)]).
+
+Definition enqueue (s : st) (msg : f2b) : st := enqueue_tagged s msg None.
 
 (* Drop for Subscription: try_send *)
 Definition try_enqueue (s : st) (msg : f2b) : st :=
@@ -314,8 +322,12 @@ Fixpoint admit_waiting (fuel : nat) (s : st) : st :=
   | O => s
   | S f =>
     match waiting s with
-    | msg :: w => if Nat.ltb (length (queue s)) (qcap s)
-                  then admit_waiting f (upd_queue s (queue s ++ [msg]) w) else s
+    | (msg, tag) :: w =>
+      if Nat.ltb (length (queue s)) (qcap s)
+      then
+        let s1 := upd_queue s (queue s ++ [msg]) w in
+        admit_waiting f (match tag with Some h => upd_unsubw s1 (mark_admitted h (unsubw s1)) | None => s1 end)
+      else s
     | [] => s
     end
   end.
@@ -329,14 +341,17 @@ Definition wire (s : st) (raw : bytes) : st * list out :=
   if sendfail s then (upd_dying (upd_sendfail s false) FTransport, [])      (* the write errors: the send task ends *)
   else (if gated s then upd_busy s true else s, [OWire raw]).
 
-(* build_unsubscribe_message + manager.unsubscribe (repaired: the subscribe-id entry is removed) *)
+(* build_unsubscribe_message + manager.unsubscribe: the subscribe-id entry becomes a waiter-less pending call
+   (it absorbs a late duplicate of the subscribe answer) and the reserved unsubscribe id remembers it
+   (repaired: the acknowledgement of the unsubscribe call releases both) *)
 Definition do_unsubscribe (s : st) (sid : subid) : st * list out :=
   match alookup subid_eqb sid (subs (m s)) with
   | None => (s, [])
   | Some rid =>
     match req_lookup rid (m s) with
     | Some (KSub u ch um) =>
-      let m1 := set_subs (set_requests (m s) (aremove id_eqb rid (requests (m s)))) (aremove subid_eqb sid (subs (m s))) in
+      let r1 := aset id_eqb u (KUnsubP rid) (aset id_eqb rid (KCall None) (requests (m s))) in
+      let m1 := set_subs (set_requests (m s) r1) (aremove subid_eqb sid (subs (m s))) in
       let s1 := drop_sink (upd_m s m1) ch in
       wire (upd_unacked s1 (u :: unacked s1)) (unsub_request s1 u um sid)
     | _ => (s, [])
@@ -372,13 +387,18 @@ Definition handle_front (s : st) (msg : f2b) : st * list out :=
     end
   end.
 
-(* Subscription::unsubscribe futures complete once their channel's sender is gone (they drain it) *)
+(* Subscription::unsubscribe futures: once their message is in the queue they drain the channel and complete when
+   its sender is gone *)
+Definition unsub_done (s : st) (x : handle * handle * bool) : bool :=
+  match x with (_, c, adm) => adm && match chan_of s c with Some ch => negb (c_tx ch) | None => true end end.
+
 Definition finish_unsubs (s : st) : st * list out :=
-  let done := filter (fun wc => match chan_of s (snd wc) with Some c => negb (c_tx c) | None => true end) (unsubw s) in
-  let rest := filter (fun wc => match chan_of s (snd wc) with Some c => c_tx c | None => false end) (unsubw s) in
-  let s1 := fold_left (fun s' wc => match chan_of s' (snd wc) with
-                                    | Some c => set_chan s' (snd wc) (chan_drop_rx c) | None => s' end) done s in
-  (upd_unsubw s1 rest, flat_map (fun wc => complete s (fst wc) CDone) done).
+  let done := filter (unsub_done s) (unsubw s) in
+  let rest := filter (fun x => negb (unsub_done s x)) (unsubw s) in
+  let s1 := fold_left (fun s' x => match x with (_, c, _) =>
+                                     match chan_of s' c with
+                                     | Some ch => set_chan s' c (chan_drop_rx ch) | None => s' end end) done s in
+  (upd_unsubw s1 rest, flat_map (fun x => match x with (w, _, _) => complete s w CDone end) done).
 
 (* run the send task until the queue is empty or it blocks in a write *)
 Fixpoint drain (fuel : nat) (s : st) : st * list out :=
@@ -477,6 +497,12 @@ Definition single_response (s : st) (r : response) : rres :=
             ROk (forward (set_chan s1 w (chan_drop_rx (new_chan (bufcap s)))) (MSubClosed sid)) []
       end
     end
+  | Some (KUnsubP sub) =>
+    (* complete_pending_unsubscribe: the acknowledgement releases the unsubscribe id and the kept subscribe id *)
+    let r1 := aremove id_eqb i (requests (m s)) in
+    let r2 := match alookup id_eqb sub r1 with Some (KCall None) => aremove id_eqb sub r1 | _ => r1 end in
+    let s1 := upd_m s (set_requests (m s) r2) in
+    ROk (upd_unacked s1 (filter (fun u => negb (id_eqb i u)) (unacked s1))) []
   | Some (KSub _ _ _) | None => RFatal s [] FNotPending
   end.
 
@@ -566,10 +592,12 @@ Definition sort_handles (l : list N) : list N := fold_right insert_sorted [] l.
 
 Definition kill (s : st) (f : fatal) : st * list out :=
   let ws := flat_map waiters_of_kind (requests (m s)) ++ map snd (batches (m s))
-            ++ flat_map waiters_of_msg (queue s) ++ flat_map waiters_of_msg (waiting s) in
+            ++ flat_map waiters_of_msg (queue s) ++ flat_map (fun x => waiters_of_msg (fst x)) (waiting s) in
   let outs := flat_map (fun h => complete s h (CErr EDisconnected)) (sort_handles ws) in
   let s1 := upd_chans s (map (fun hc => (fst hc, chan_drop_tx (snd hc))) (chans s)) in
-  let s2 := upd_dead (upd_unacked (upd_queue (upd_m s1 empty_mgr) [] []) []) in      (* pending unsubscribe() futures finish in settle *)
+  let s2 := upd_dead (upd_unacked (upd_queue (upd_m s1 empty_mgr) [] []) []) in
+  (* pending unsubscribe() futures: their send fails at once on the closed channel, they drain and finish in settle *)
+  let s2 := upd_unsubw s2 (map (fun x => match x with (w, c, _) => (w, c, true) end) (unsubw s2)) in
   (s2, OFatal f :: outs).
 
 (* ---------- events ---------- *)
@@ -661,7 +689,9 @@ Definition apply (s : st) (e : ev) : st * list out * option nextres :=
   | FNext sh => let '(s', r) := poll_next s sh in (s', [], Some r)
   | FUnsub h sh =>
     match close_msg_of s sh with
-    | Some msg => (upd_unsubw (enqueue (upd_subkind s (aremove N.eqb sh (subkind s))) msg) (unsubw s ++ [(h, sh)]), [], None)
+    | Some msg =>
+      let s1 := upd_unsubw (upd_subkind s (aremove N.eqb sh (subkind s))) (unsubw s ++ [(h, sh, false)]) in
+      (enqueue_tagged s1 msg (Some h), [], None)
     | None => (s, [], None)
     end
   | FDrop sh =>
@@ -672,7 +702,7 @@ Definition apply (s : st) (e : ev) : st * list out * option nextres :=
     end
   | FGiveUp h =>
     (* the caller's future is dropped: a message it had not managed to enqueue yet is never sent *)
-    let w' := filter (fun x => negb (existsb (N.eqb h) (waiters_of_msg x))) (waiting s) in
+    let w' := filter (fun x => negb (existsb (N.eqb h) (waiters_of_msg (fst x)))) (waiting s) in
     (upd_gone (upd_queue s (queue s) w') (h :: gone s), [], None)
   | Release => (upd_busy s false, [], None)
   | Back raw =>
